@@ -326,6 +326,15 @@ func partB(r *rand.Rand, iterations int, stats map[string]int) (fail string, tra
 		}
 		volatilePool := 10 + r.Intn(600)
 		quiet := it%4 == 0 // no mutation: check the termination bound
+		// drain mode: some calls into the iteration every element is removed (nothing is stable) and
+		// nothing changes afterwards: the iteration must still come to its end
+		drain := it%5 == 3
+		drainAt := 2 + r.Intn(4)
+		callsAfterDrain := -1
+		if drain {
+			quiet = false
+			stable = map[string]bool{}
+		}
 		pattern := ""
 		if r.Intn(3) == 0 {
 			pattern = []string{"s*", "*1*", "s?", "v*", "*"}[r.Intn(5)]
@@ -378,6 +387,21 @@ func partB(r *rand.Rand, iterations int, stats map[string]int) (fail string, tra
 			cursor = next
 			if cursor == "0" {
 				break
+			}
+			if drain {
+				if callsAfterDrain >= 0 {
+					callsAfterDrain++
+					if callsAfterDrain > 200 {
+						return fmt.Sprintf("%s: every element was removed during the iteration and nothing changed afterwards, yet %d further calls did not end it (cursor %s)", c.kind, callsAfterDrain, cursor), trace
+					}
+				} else if calls >= drainAt {
+					for e := range c.present {
+						del(e)
+					}
+					callsAfterDrain = 0
+					stats["drained_iterations"]++
+				}
+				continue
 			}
 			if !quiet {
 				for m := 0; m < r.Intn(40); m++ {
